@@ -164,8 +164,25 @@ let cmd_ops prog n =
   String.concat ";" (List.map (fun ((sh, co), sk) -> b2s sh ^ "," ^ string_of_n co ^ "," ^ b2s sk)
                        (quick_ops_init (comp_of_text prog) (n_of_string n)))
 
+let cmd_plain prog lim =
+  let ((r, n), _) = plain_run (to_prog (comp_of_text prog)) init_config (n_of_string lim) in
+  (match r with
+   | PLimit -> "limit" | PSpinout -> "spinout"
+   | PHalt sl -> "halt:" ^ field_of_slot sl) ^ "|" ^ string_of_n n
+
+let cmd_erase prog lim =
+  match erase_run (to_prog (comp_of_text prog)) init_config (n_of_string lim) with
+  | None -> "-" | Some n -> string_of_n n
+
+let cmd_cert prog lim =
+  match find_cert (to_prog (comp_of_text prog)) init_config (n_of_string lim) with
+  | None -> "-" | Some (a, b) -> string_of_n a ^ "," ^ string_of_n b
+
 let dispatch (fields : string list) : string option =
   match fields with
+  | ["plain"; prog; lim] -> Some (cmd_plain prog lim)
+  | ["erase"; prog; lim] -> Some (cmd_erase prog lim)
+  | ["cert"; prog; lim] -> Some (cmd_cert prog lim)
   | ["ops"; prog; n] -> Some (cmd_ops prog n)
   | ["tape"; mode; tp; ops] -> Some (cmd_tape mode tp ops)
   | ["quick"; prog; lim] -> Some (cmd_quick prog lim)
